@@ -120,6 +120,11 @@ def gen_scenarios(prop, tier, seed):
                     if rnd.random() < 0.4:
                         sc["alloc_script"] = {"call": G.rand_ops(rnd, 2)}
                         sc["input_counters"] = [3] if sc["entry"] not in ("bench", "bench_local") else []
+                    elif rnd.random() < 0.5:
+                        # allocations only in the first calls of a thread (lazy initialisation):
+                        # they belong to tuning rounds that get discarded
+                        sc["alloc_script"] = {"call": [{"op": "alloc", "size": rnd.choice([8, 64])}],
+                                              "call_until": rnd.choice([1, 1, 2, 3])}
                     scs.append(sc)
                     k += 1
     return scs
